@@ -824,6 +824,86 @@ func sectionRequestDecoder(bs []*binding) {
 	}
 }
 
+// sectionRequestDecoderConcurrent: several goroutines hand requests of the SAME function (same constructor id,
+// different contents) to LiteapiRequestDecoder at the same time, as a server handling several connections
+// does. Value oracle: every caller gets back exactly the request whose bytes it passed in.
+func sectionRequestDecoderConcurrent(bs []*binding) {
+	const G = 8
+	n := N(100, 600)
+	for _, b := range bs {
+		if b.what != "request" || len(b.ctors[0].Fields) == 0 {
+			continue
+		}
+		f := b.ctors[0]
+		type bad struct {
+			what string
+			wit  map[string]any
+		}
+		found := make([][]bad, G)
+		begin("LiteapiRequestDecoder|"+f.Name+" from 8 goroutines", nil)
+		var wg, ready sync.WaitGroup
+		start := make(chan struct{})
+		for g := 0; g < G; g++ {
+			rng := K.Rng("reqdec-conc/"+f.Name, g)
+			wg.Add(1)
+			ready.Add(1)
+			go func(g int, rng *mon.Rng) {
+				defer wg.Done()
+				// requests are prepared before the start signal so that the decoder calls overlap as much as possible
+				objs := make([]*rtl.Object, n)
+				reqs := make([][]byte, n)
+				for k := range objs {
+					objs[k] = S.RandomObject(rng, f, &rtl.GenOpts{BytesLen: func(r rtl.Rand) int { return 1 + r.Intn(700) }})
+					reqs[k], _ = S.EncodeBoxed(f, objs[k])
+				}
+				ready.Done()
+				<-start
+				for k := range objs {
+					var name *liteclient.RequestName
+					var val any
+					var err error
+					var pv any
+					func() {
+						defer func() { pv = recover() }()
+						_, name, val, err = liteclient.LiteapiRequestDecoder(reqs[k])
+					}()
+					wit := map[string]any{"function": f.String(), "goroutine": g, "call": k, "value": valueWitness(objs[k]), "request": mon.HexTrunc(reqs[k], 256)}
+					rv := reflect.ValueOf(val)
+					switch {
+					case pv != nil:
+						wit["panic"] = fmt.Sprint(pv)
+						found[g] = append(found[g], bad{"panic@LiteapiRequestDecoder/concurrent/" + f.Name, wit})
+					case err != nil || name == nil || *name != f.Name || !rv.IsValid() || rv.Type() != b.goType:
+						wit["err"], wit["got_type"] = fmt.Sprint(err), fmt.Sprintf("%T", val)
+						found[g] = append(found[g], bad{"request-decoder-wrong-name@concurrent/" + f.Name, wit})
+					default:
+						back, err := bind.ExtractObject(S, f, rv)
+						if err != nil || rtl.Diff(S, objs[k], back) != "" {
+							wit["diff"], wit["err"] = rtl.Diff(S, objs[k], back), fmt.Sprint(err)
+							wit["note"] = "the caller did not get back the request it passed in (other goroutines were decoding requests of the same function)"
+							found[g] = append(found[g], bad{"request-decoder-wrong-value@concurrent/" + f.Name, wit})
+						}
+					}
+					if len(found[g]) > 3 {
+						return
+					}
+				}
+			}(g, rng)
+		}
+		ready.Wait()
+		close(start)
+		wg.Wait()
+		end()
+		K.EvalN(int64(G*n), "reqdec-concurrent/"+f.Name)
+		K.Seen("request_decoder_functions_concurrent", f.Name)
+		for g := range found {
+			for _, x := range found[g] {
+				K.Violation(x.what, x.wit)
+			}
+		}
+	}
+}
+
 // sectionHandWritten: tl.Int256, ton.AccountID, ton.BlockIDExt,
 // liteclient.LiteServerSignatureSet and the conversion helpers of extensions.go.
 func sectionHandWritten() {
@@ -1568,6 +1648,7 @@ func workerMisc(w *mon.Worker) {
 	sectionPrimitives()
 	sectionPrimitiveVectors()
 	sectionRequestDecoder(bs)
+	sectionRequestDecoderConcurrent(bs)
 	sectionHandWritten()
 }
 
@@ -1589,7 +1670,7 @@ func main() {
 	}
 	R = mon.Start("C10", tier)
 	K = R
-	R.Rule = "for every line of lite_api.tl (as parsed by the reference TL model, not by tongo) abstract values are drawn (every subset of the mode bits the line consults x byte-string lengths {0,1,2,3,4,253,254,255,256,1100}, plus free random values, plus lengths around 2^16 / 2^24), placed positionally into the generated Go type found by scanning generated.go, and compared: tl.Marshal bytes == reference bytes; tl.Unmarshal(reference bytes ‖ sentinel) == value, consuming exactly the value; LiteapiRequestDecoder(reference request) names the function and returns the value; each *Client method talks to a reference ADNL server which compares the decrypted query with adnl.message.query{liteServer.query{id ‖ args}} and answers with the reference encoding of a random result (or liteServer.error); tl.Marshal/Unmarshal of plain []byte/string for every length 0..1100; the hand-written requests WaitMasterchainBlock / WaitMasterchainSeqno likewise (incl. liteServer.error answers); per method one answer that is a boxed value of another type (must be refused) and, for a few methods, byte strings of 65535/65536/200000 bytes in the answer or the request (long-form length in the adnl.message.* / liteServer.query envelopes); every value is decoded a second time from a reader that returns 1..5 bytes per Read, and boxed values are offered with a foreign constructor id (must be refused); tl.Marshal/Unmarshal of Go slices of every element kind; hand-written codecs likewise; the two generators are re-run and their gofmt'ed output compared with the checked-in files. non-trivial = a value that was encoded and compared; distinct = distinct (Go type, constructor, presence pattern, byte-string / vector length classes)"
+	R.Rule = "for every line of lite_api.tl (as parsed by the reference TL model, not by tongo) abstract values are drawn (every subset of the mode bits the line consults x byte-string lengths {0,1,2,3,4,253,254,255,256,1100}, plus free random values, plus lengths around 2^16 / 2^24), placed positionally into the generated Go type found by scanning generated.go, and compared: tl.Marshal bytes == reference bytes; tl.Unmarshal(reference bytes ‖ sentinel) == value, consuming exactly the value; LiteapiRequestDecoder(reference request) names the function and returns the value, also when 8 goroutines decode different requests of the same function at the same time (each must get its own request back); each *Client method talks to a reference ADNL server which compares the decrypted query with adnl.message.query{liteServer.query{id ‖ args}} and answers with the reference encoding of a random result (or liteServer.error); tl.Marshal/Unmarshal of plain []byte/string for every length 0..1100; the hand-written requests WaitMasterchainBlock / WaitMasterchainSeqno likewise (incl. liteServer.error answers); per method one answer that is a boxed value of another type (must be refused) and, for a few methods, byte strings of 65535/65536/200000 bytes in the answer or the request (long-form length in the adnl.message.* / liteServer.query envelopes); every value is decoded a second time from a reader that returns 1..5 bytes per Read, and boxed values are offered with a foreign constructor id (must be refused); tl.Marshal/Unmarshal of Go slices of every element kind; hand-written codecs likewise; the two generators are re-run and their gofmt'ed output compared with the checked-in files. non-trivial = a value that was encoded and compared; distinct = distinct (Go type, constructor, presence pattern, byte-string / vector length classes)"
 	R.Assume("reference TL model harness/ref/tl is correct: pinned at start-up by real lite-server answers in ton/testdata, the overlay-id network constants and the byte-string examples of the TL documentation")
 	R.Assume("Go values are populated positionally: the i-th Go field of a generated struct is the i-th schema field whose type is not `true`")
 	R.Assume("the constructor ids written in lite_api.tl are taken as given (their agreement with CRC32 of the official schema lines is not part of the property)")
